@@ -2,3 +2,4 @@ pub mod c01;
 pub mod c07;
 pub mod c08;
 pub mod c09;
+pub mod c10;
